@@ -102,6 +102,10 @@ struct LineBuf : public std::streambuf
             if(cur.compare(0, strlen(mk.text), mk.text) == 0)
             {
                log += mk.tok;
+
+               if(mk.tok[0] == 'e')      // the text of a caught exception (hex), to label observations
+                  log += vf::hex(cur.substr(0, 80));
+
                log += ",";
             }
 
